@@ -42,6 +42,18 @@ func witnessCallResult() *Case {
 	}}
 }
 
+func witnessConcat() *Case {
+	// $v0 = ['ab','cd',7]; $v1 = $v0; $v1[0] .= 'x'; $v1[2] .= 'y'; $v0[1] .= 'z';   — C06_concat_witness_outcomes:
+	// an implementation that appends to the element's shared string object in place changes the other name
+	return &Case{NV: 2, Shape: "smix", Route: "assign", Mut: "catIdx", Side: "copy", Ops: []Op{
+		{K: "setVar", X: 0, R: RLit(LArr(LStr("ab"), LStr("cd"), LInt(7)))},
+		{K: "setVar", X: 1, R: RRd(V(0))},
+		cmpd(V(1), KI(0), UCat("x")),
+		cmpd(V(1), KI(2), UCat("y")),
+		cmpd(V(0), KI(1), UCat("z")),
+	}}
+}
+
 func (r *runner) modelAgreesWithSpec(cs *Case) (agree bool, inFragment bool) {
 	if r.m == nil {
 		return false, false
@@ -116,6 +128,8 @@ func Run(c *vh.Ctx) {
 			r.runShare(shareByName(cs.Mut, cs.Src))
 		case "x":
 			r.runX(cs)
+		case "pl":
+			r.runPL(cs)
 		default:
 			r.runCase(cs, true)
 		}
@@ -131,10 +145,15 @@ func Run(c *vh.Ctx) {
 		return
 	}
 
-	c.Res.Rule = "triples: every (array shape x aliasing route x mutation x written side) of the catalogue (10 shapes: list, permuted list, empty, string-keyed, mixed, sparse, nested to depth 2 and 3, nested under string keys; 13 single-edge routes: assignment, by-value parameter with the write inside the callee, function return, getter, property read, property store, setter, element store, element append, array-literal item, element read, foreach value, clone; 22 composite routes: a call result — getter, element of a by-value copy — handed straight to a function / method / static method / constructor / closure / named parameter, an assignment, an element store / append, a property store / setter; 23 mutations: int/sparse/string/array store, append, unset, push/pop/shift/unshift/sort as method and as array_* function, and their nested forms one and two levels down); seeded programs of 4-14 statements over 4 variables, 2 object properties, with explicit references and handle copies; keyed-literal (ObjectValue) triples; composite-route cases: owner x producer expression x by-value sink x flat mutation x shape x scope, one script each; non-trivial = at least 3 statements; distinct = distinct statement list"
+	c.Res.Rule = "triples: every (array shape x aliasing route x mutation x written side) of the catalogue (10 shapes: list, permuted list, empty, string-keyed, mixed, sparse, nested to depth 2 and 3, nested under string keys; 13 single-edge routes: assignment, by-value parameter with the write inside the callee, function return, getter, property read, property store, setter, element store, element append, array-literal item, element read, foreach value, clone; 22 composite routes: a call result — getter, element of a by-value copy — handed straight to a function / method / static method / constructor / closure / named parameter, an assignment, an element store / append, a property store / setter; 23 mutations: int/sparse/string/array store, append, unset, push/pop/shift/unshift/sort as method and as array_* function, and their nested forms one and two levels down); seeded programs of 4-14 statements over 4 variables, 2 object properties, with explicit references and handle copies; keyed-literal (ObjectValue) triples; composite-route cases: owner x producer expression x by-value sink x flat mutation x shape x scope, one script each; scalar-payload cases: element kind (string, numeric string, float, bool, null, int, mixed) x container shape (list, string-keyed, keyed literal, nested to depth 3) x copy route (every single-edge route, the call boundaries, built-ins, one literal as common source, payload shared with a scalar variable) x mutation form (every compound assignment, ++/--, string offset write, string / array methods, sort family, array_walk / foreach / parameter / variable by reference, destructuring, unset, append) x written side, one script each; non-trivial = at least 3 statements; distinct = distinct statement list"
 
 	if f := os.Getenv("C06_PRELUDE_OUT"); f != "" { // development: the prelude, to replay a case on the CLI
-		os.WriteFile(f, []byte("<?php\n"+classPrelude+xPrelude()), 0o644)
+		os.WriteFile(f, []byte(fullPrelude()), 0o644)
+		return
+	}
+	if os.Getenv("C06_ONLY") == "pl" { // development: the scalar-payload stream alone
+		n := r.plEnumerate(c.Thorough(), c.Rand, c.N(6000, 60000))
+		c.Note("scalar payloads only: %d cases", n)
 		return
 	}
 	if os.Getenv("C06_ONLY") == "x" { // development: the composite-route stream alone
@@ -170,6 +189,7 @@ func Run(c *vh.Ctx) {
 	r.runCase(witnessFlat(), true)
 	r.runCase(witnessNested(), true)
 	r.runCase(witnessCallResult(), true)
+	r.runCase(witnessConcat(), true)
 
 	// a tree on which programs keep killing the interpreter is reported after a bounded number of losses
 	tooManyCrashes := func() bool {
@@ -220,8 +240,12 @@ func Run(c *vh.Ctx) {
 	if tooManyCrashes() {
 		return
 	}
+	nPL := r.plEnumerate(c.Thorough(), c.Rand, c.N(6000, 60000))
+	if tooManyCrashes() {
+		return
+	}
 	c.Res.Exhaustive = true
-	c.Res.ExhaustiveWhat = fmt.Sprintf("all %d applicable (shape x route x mutation x side) triples of the catalogue against model and oracle; all %d keyed-literal triples against the oracle; %d intended-sharing expectations; %d composite-route cases (owner x producer expression x by-value sink x mutation x shape) against the oracle", nTriples, nKV, len(shareCases), nX)
+	c.Res.ExhaustiveWhat = fmt.Sprintf("all %d applicable (shape x route x mutation x side) triples of the catalogue against model and oracle; all %d keyed-literal triples against the oracle; %d intended-sharing expectations; %d composite-route cases (owner x producer expression x by-value sink x mutation x shape) against the oracle; %d scalar-payload cases (element kind x container shape x copy route x mutation form x written side: all for string lists, all along plain assignment, all under `.=`; thorough: all for string and mixed elements and for lists) against the oracle", nTriples, nKV, len(shareCases), nX, nPL)
 
 	// ---- 2. seeded programs, writes at depth 1 only (the discipline of the _partial theorem)
 	g := &gen{r: c.Rand, nv: 4}
@@ -310,6 +334,10 @@ func resolve(cs *Case) *Case {
 		}
 	case "x-ref": // {"kind":"x-ref","shape":..,"route":<producer>,"side":<sink>,"mut":..}
 		if t := xByNames(cs.Scope, cs.Shape, cs.Route, cs.Side, cs.Mut); t != nil {
+			return t
+		}
+	case "pl-ref": // {"kind":"pl-ref","shape":"<kind>/<shape>","route":..,"mut":..,"side":..}
+		if t := plByNames(cs.Shape, cs.Route, cs.Mut, cs.Side); t != nil {
 			return t
 		}
 	case "kv-ref":
